@@ -237,7 +237,8 @@ ALLOWED_NAMES = {"MalformedConditionLikeSpec", "MalformedContainerItemSpec", "Ma
 def classify_exc(e):
     """-> None if the exception is a listed spec error, else a description."""
     n = type(e).__name__
-    if n in ALLOWED_NAMES:
+    # (a more specific subclass of a listed spec error is that spec error)
+    if any(c.__name__ in ALLOWED_NAMES for c in type(e).__mro__):
         return None
     if isinstance(e, KeyError):
         if e.args and e.args[0] in ("path", "condition", "rules"):
